@@ -48,7 +48,8 @@ class Contract:
                  setup=None, modifies=None, call_requires=None, result_maker=None, args=None,
                  timeout_ms=None, max_paths=None, method_of=None, build=None, fuel=None, note="",
                  gen=None, nl_uf=False, tiers=("quick", "thorough"), returns_expr=None, group_axioms=False,
-                 int_bytes_expand=8):
+                 int_bytes_expand=8, bcat_unit=False):
+        self.bcat_unit = bcat_unit                # add  b_cat(x, empty) == x == b_cat(empty, x)  (parsing loops over suffix-recursive specs)
         self.int_bytes_expand = int_bytes_expand  # int.from_bytes of an opaque string of at most this many bytes is tied to its bytes
         self.group_axioms = group_axioms          # add the commutative-monoid axioms of the abstract point group (C03.4)
         self.returns_expr = returns_expr          # call sites use this spec term as the result (must be one of the ensures)
@@ -345,6 +346,10 @@ def verify_contract(c, reg=REG, timeout_ms=10000, max_paths=None, concrete=None)
     if getattr(c, "group_axioms", False):
         from . import fieldmode as _fm
         axioms += _fm.group_axioms()
+    if getattr(c, "bcat_unit", False):
+        _bx = z3.Const("bcat_x", BSort)
+        axioms.append(z3.ForAll([_bx], B_cat(_bx, B_empty) == _bx, patterns=[B_cat(_bx, B_empty)]))
+        axioms.append(z3.ForAll([_bx], B_cat(B_empty, _bx) == _bx, patterns=[B_cat(B_empty, _bx)]))
     if getattr(c, "nl_uf", False) and getattr(c, "nl_comm_axiom", False):
         # (products are built AC-canonically by ops.nl_mul, so the quantified axiom is normally not needed)
         from .ops import NLMUL
@@ -389,6 +394,7 @@ def verify_contract(c, reg=REG, timeout_ms=10000, max_paths=None, concrete=None)
                 c.setup(m, env)
         except PyExc:
             raise PathEnd()
+        m.ghost_env = dict(env)
         for nme, v in env.items():
             p.inputs[nme] = snapshot(m, v)
         senv = dict(env)
